@@ -37,7 +37,8 @@ WasFollower(c) == creq[c].st = "wait"
 
 \* categories for one expected delivery m (a record of last')
 DelivCats(m) ==
-    IF DelivFor(m.c) = {} THEN (IF WasFollower(m.c) THEN {"C05", "C09"} ELSE {"C09"})
+    \* (an answer that never comes is also a request that does not complete: C14)
+    IF DelivFor(m.c) = {} THEN (IF WasFollower(m.c) THEN {"C05", "C09", "C14"} ELSE {"C09", "C14"})
     ELSE LET o == Obs(m.c)
              r == o.r
              okStatus == o.status = m.status
@@ -88,7 +89,8 @@ ContactCats(x) ==
        THEN (IF DelivFor(c) # {} /\ Obs(c).status \in {200, 206}
              THEN (IF store[ct.r].present THEN {"C03"} ELSE {"C04"})   \* answered from the store instead of asking
              ELSE IF DelivFor(c) # {} THEN {"C09"}
-             ELSE {"C05", "C09"})
+             \* neither an origin contact nor an answer: the request is stuck inside the proxy
+             ELSE {"C05", "C09", "C14"})
        ELSE LET o == Opn(c)
                 wantINM == IF ct.inm = "stored" THEN "stored:" \o ToString(ct.ver) ELSE "absent"
                 inmOK == IF ct.reval THEN o.inm = wantINM ELSE o.inm \in {"absent"} \/ (creq'[c].cond = "bad")
@@ -128,7 +130,7 @@ MetricCats ==
 
 WaitingCats ==
     IF F(Line, "settled", TRUE) /\ Line.waiting = Cardinality({c \in Clients : creq'[c].st = "wait"}) THEN {}
-    ELSE IF ~F(Line, "settled", TRUE) THEN {"C05", "C09"} ELSE {"C05"}
+    ELSE IF ~F(Line, "settled", TRUE) THEN {"C05", "C09", "C14"} ELSE {"C05"}
 
 RECURSIVE UnionAll(_)
 UnionAll(S) == IF S = {} THEN {} ELSE LET x == CHOOSE y \in S : TRUE IN x \cup UnionAll(S \ {x})
